@@ -296,7 +296,7 @@ def nsphere(prog, rep):
         if bd and bd.get("x") == pts and bd.get("axis") == ("const", 1) and bd.get("keepdims") == ("const", True) and set(bd) == {"x", "axis", "keepdims"}:
             if pts[0] == "call" and pts[1][0] == "attr" and pts[1][2] in ("normal", "standard_normal"):
                 size = dict(pts[3]).get("size")
-                shape_ok = size == ("tuple", (("attr", SELF, "n_samples"), ("attr", SELF, "dim")))
+                shape_ok = size in (("tuple", (("attr", SELF, "n_samples"), ("attr", SELF, "dim"))), ("tuple", (("param", "n_samples"), ("param", "dim"))))
                 gen = pts[1][1]
                 if gen[0] == "call" and gen[1] in (G("numpy.random.RandomState"), G("numpy.random.default_rng")):
                     sd = dict(gen[3]).get("seed", gen[2][0] if gen[2] else None)
